@@ -267,7 +267,7 @@ func c11GuardCases(ctx *core.Ctx, r *gen.Rng) {
 		ctx.Add(g.term(code, flags), map[string]interface{}{"kind": "guard", "features_config": g.cfgKind, "list": g.cfgList,
 			"yang": g.yang(), "observed_code": code, "observed": flags, "note": note,
 			"statements": "d1, d2, case c1, uses in u1, refines gl/gm/gn in u2, augment gc in u2, augment /top",
-			"codes": "0 loaded / 1 load error / 2 panic or inconsistent tree"}, true)
+			"codes":      "0 loaded / 1 load error / 2 panic or inconsistent tree"}, true)
 		ctx.Count("guard:" + g.cfgKind)
 		ctx.Count("guard:data:" + g.kinds[0])
 		if hadBad && !bad {
